@@ -35,6 +35,12 @@ pub struct CorridorSpec {
     /// (Y-junction); its own stages run west -> east to a second eastern terminal
     #[serde(default)]
     pub branch: Option<BranchSpec>,
+    /// the first branch segment crosses both tracks of the lockout siding on the level (the
+    /// siding lies east of the junction, so no route uses both): the three physical segments
+    /// are declared mutually exclusive pairwise — a lockout list then names links that also
+    /// lock out each other
+    #[serde(default)]
+    pub lockout_crossing: bool,
 }
 
 #[derive(Serialize, Deserialize, Clone, Debug, PartialEq)]
@@ -190,6 +196,16 @@ impl CorridorSpec {
                 links[mr as usize].link_idxs_lockout = vec![li(s), li(sr)];
                 links[s as usize].link_idxs_lockout = vec![li(m), li(mr)];
                 links[sr as usize].link_idxs_lockout = vec![li(m), li(mr)];
+                if let (true, Some(b)) = (self.lockout_crossing, &self.branch) {
+                    if b.at < k && n_all > n {
+                        let (bf, br) = (fwd[n][0], rev[n][0]);
+                        for x in [m, mr, s, sr] {
+                            links[x as usize].link_idxs_lockout.extend([li(bf), li(br)]);
+                        }
+                        links[bf as usize].link_idxs_lockout = vec![li(m), li(mr), li(s), li(sr)];
+                        links[br as usize].link_idxs_lockout = vec![li(m), li(mr), li(s), li(sr)];
+                    }
+                }
             }
         }
         Corridor { links, fwd, rev, n_phys: p as usize, n_main: n, seg_of_link }
@@ -296,5 +312,9 @@ pub fn gen_corridor(g: &mut Gen, o: &CorridorOpts) -> CorridorSpec {
     } else {
         None
     };
-    CorridorSpec { stages, lockout_stage, branch }
+    let lockout_crossing = match (lockout_stage, &branch) {
+        (Some(k), Some(b)) if b.at < k => g.bool(0.85),
+        _ => false,
+    };
+    CorridorSpec { stages, lockout_stage, branch, lockout_crossing }
 }
